@@ -54,6 +54,8 @@ NOSYM = dict(sym_maxdist=False, sym_init=False, sym_minprob=False)
 MD = dict(sym_maxdist=True, sym_init=False, sym_minprob=False)
 LINKED3 = {"Z": ["A"], "A": ["B"], "B": [], "C": ["D"], "D": []}
 LINKED3_L = [[["A", "B"], [["C", "D"]]], [["Z", "A"], [["C", "D"]]]]
+LINKIN = {"A": ["B"], "C": ["B"], "B": [], "E": ["F"], "F": []}      # two edges into B, only (A,B) is linked to the parallel edge (E,F)
+LINKIN_L = [[["A", "B"], [["E", "F"]]]]
 PAR2 = {"A": ["B"], "B": [], "C": ["D"], "D": []}
 PAR2_L = [[["A", "B"], [["C", "D"]]], [["C", "D"], [["A", "B"]]]]
 
@@ -64,6 +66,7 @@ def instances(tier):
         for fam in ('simple', 'dist'):
             out.append(('linked3', LINKED3, dict(fam=fam, T=2, ne=True, linked=LINKED3_L, **NOSYM), [('match', 2)], {}))
             out.append(('par2', PAR2, dict(fam=fam, T=2, ne=False, linked=PAR2_L, **NOSYM), [('match', 2)], {}))
+            out.append(('linkin', LINKIN, dict(fam=fam, T=2, ne=False, linked=LINKIN_L, **NOSYM), [('match', 2)], {}))
             out.append(('oneway4', NAMED['oneway4'], dict(fam=fam, T=2, ne=True, **NOSYM), [('match', 2)], {}))
             out.append(('tri', NAMED['tri'], dict(fam=fam, T=2, ne=False, self_listed=False, **NOSYM), [('match', 2)], {}))
             out.append(('line3', NAMED['line3'], dict(fam=fam, T=2, ne=False, **NOSYM), [('match', 2)], {}))
@@ -87,6 +90,8 @@ def instances(tier):
                 out.append(('linked3', LINKED3, dict(fam=fam, T=2, ne=ne, linked=LINKED3_L, **NOSYM), [('match', 2)], {}))
                 out.append(('linked3', LINKED3, dict(fam=fam, T=3, ne=ne, linked=LINKED3_L, **NOSYM), [('match', 3)], {}))
                 out.append(('par2', PAR2, dict(fam=fam, T=3, ne=ne, linked=PAR2_L, **NOSYM), [('match', 3)], {}))
+                out.append(('linkin', LINKIN, dict(fam=fam, T=2, ne=ne, linked=LINKIN_L, **NOSYM), [('match', 2)], {}))
+                out.append(('linkin', LINKIN, dict(fam=fam, T=3, ne=ne, linked=LINKIN_L, **NOSYM), [('match', 3)], {}))
     return out
 
 
@@ -133,8 +138,8 @@ def main(tier):
     elif ch.get('confirmed'):
         rep.paths += ch['confirmed']
         rep.paths_total += ch['confirmed']
-    rep.bounds = dict(graphs="linked3 (3 edges, one linked pair), par2 (2 linked parallel edges), oneway4, tri, line3, fork, oneway3, line2" if tier == 'quick'
-                      else "all digraphs <=3 nodes, fork, oneway4, path4, diamond, star, linked3, par2",
+    rep.bounds = dict(graphs="linked3 (3 edges, one linked pair), par2 (2 linked parallel edges), linkin (two edges into one node, one of them linked), oneway4, tri, line3, fork, oneway3, line2" if tier == 'quick'
+                      else "all digraphs <=3 nodes, fork, oneway4, path4, diamond, star, linked3, par2, linkin",
                       T="2..3", variants="self-listed neighbours on/off, one-way, dead ends, linked pair, non-emitting on/off, width-1 then widen, extend",
                       crosshair="node_path_to_only_nodes: state sequences of length 4 over symbolic int labels satisfying the walk predicate")
     rep.outside = ["SqliteMap neighbour queries (see C12)", "graphs beyond the bound", "jump operation (continue_with_distance)"]
